@@ -75,7 +75,8 @@ class ProtoModel:
         return None
 
     # ---------------------------------------------------------- construction
-    def new(self, eng: Any, st: State, name: str, sym: bool = False, parent: Any = None, base: str = "") -> tuple[State, Ref, list]:
+    def new(self, eng: Any, st: State, name: str, sym: bool = False, parent: Any = None, base: str = "",
+            rec_depth: int = 1) -> tuple[State, Ref, list]:
         fields: dict[str, Any] = {}
         invs: list = []
         for f in self.msgs[name]["fields"]:
@@ -111,13 +112,17 @@ class ProtoModel:
         fields["$parent"] = parent
         fields["$sym"] = sym
         fields["$written"] = False      # ghost: has any field of this message object been written since it was handed out?
+        if name == "RdfTriple":
+            # ghost: "decoding this message as a quoted triple is rejected" (opaque, see contracts/decode.py)
+            fields["$qinvalid"] = V.fresh_bool(f"{base}.qinvalid") if sym else False
         st, r = eng.alloc(st, "msg", name, **fields)
         if sym:
             # children of non-recursive types are materialised eagerly so that contract clauses can read them
             for f in self.msgs[name]["fields"]:
-                if f["type"] == "message" and not f["repeated"] and not self.recursive(f["message"]):
+                if f["type"] == "message" and not f["repeated"] and (not self.recursive(f["message"]) or rec_depth > 0):
                     st, c, inv2 = self.new(eng, st, f["message"], sym=True, parent=Tup((r, f["name"])),
-                                           base=f"{base}.{f['name']}")
+                                           base=f"{base}.{f['name']}",
+                                           rec_depth=rec_depth - (1 if self.recursive(f["message"]) else 0))
                     invs += inv2
                     st = st.heap_set(r, f["name"], c)
                     # an absent sub-message reads as the default instance
